@@ -142,7 +142,7 @@ def verifyNeeds (e : Exchange) (t : Tables) : List String :=
             | none => []
           | _ => []))
 
-def handleSxg (op : String) (args : List String) : Option String :=
+def handleSxgCore (handleSxgPure : String → List String → Option String) (op : String) (args : List String) : Option String :=
   match op with
   | "http.canon" => match args with
     | [h] => do pure s!"ok {toHex (canonicalKey (← ofHex h))}"
@@ -170,6 +170,22 @@ def handleSxg (op : String) (args : List String) : Option String :=
       let certSha ← if cs == "nil" then some none else (ofHex cs).map some
       match signedMessage e certSha (← ofHex vu) (← parseInt d) (← parseInt x) with
       | some m => pure s!"ok {toHex m}"
+      | none => pure "err"
+    | _ => none
+  | "sxg.reuse" => match args with     -- the same *Exchange object used for A first, then holding B: the output is B's (no hidden state)
+    | what :: rest => do
+      let (_, rest1) ← parseExchange rest
+      match what with
+      | "write" => handleSxgPure "sxg.write" rest1
+      | "hdr" => handleSxgPure "sxg.hdr" rest1
+      | "hdrint" => handleSxgPure "sxg.hdrint" rest1
+      | "mi" => handleSxgPure "sxg.mi" rest1
+      | _ => none
+    | _ => none
+  | "sxg.sigheader" => match args with        -- the Signature header for given signature bytes
+    | [v, sg, vu, cu, cs, d, x] => do
+      match signatureHeaderValue (← parseVer v) (← ofHex sg) (← ofHex vu) (← ofHex cu) (← ofHex cs) (← parseInt d) (← parseInt x) with
+      | some h => pure s!"ok {toHex h}"
       | none => pure "err"
     | _ => none
   | "sxg.mi" => do
@@ -283,5 +299,9 @@ def handleSxg (op : String) (args : List String) : Option String :=
       pure s!"{GoTime.before a b} {GoTime.after a b}"
     | _ => none
   | _ => none
+
+/-- `sxg.reuse` dispatches to the plain ops on the second exchange (one level, no recursion needed beyond that) -/
+def handleSxg (op : String) (args : List String) : Option String :=
+  handleSxgCore (handleSxgCore (fun _ _ => none)) op args
 
 end WebPkg.Driver
